@@ -196,6 +196,18 @@ def run(ctx):
     # ------------------------------------------------------------------ R3
     common.check_linear_fields(ctx, 'C08.R3', prog)
 
+    # identical models change nothing - also in what is printed: the mean of n
+    # equal values carries round-off ((b+b+b)/3 = 0.35 - 1 ulp), so a percentage
+    # obtained by truncation (int(100*b)) drops by one for some n
+    gm8 = prog.mod('group')
+    gds = gm8.func('Group.get_determinant_string')
+    trunc = [c for c in calls_in(gds) if call_name(c) == 'int' and c.args
+             and any(isinstance(x, ast.Attribute) and x.attr == 'buried' for x in ast.walk(c.args[0]))]
+    ok_r = bool(trunc) and all(isinstance(c.args[0], ast.Call) and call_name(c.args[0]) == 'round'
+                               for c in trunc)
+    ctx.ob('C08.R3', 'buried:percent-not-truncated-from-noisy-mean', ok_r,
+           'the printed buried percentage is rounded before it is cut to an integer (%d conversions)'
+           % len(trunc), gm8, trunc[0] if trunc else gds)
     # ------------------------------------------------------------------ R4
     cc = prog.mod('conformation_container')
     tu = cc.func('ConformationContainer.top_up_from_atoms')
@@ -209,6 +221,29 @@ def run(ctx):
     ctx.ob('C08.R4', 'top-up:residue-type-guard', ok,
            'an atom is copied into a conformation only when the residue already present under '
            'the same residue key has the same residue name', cc, copies[0] if copies else tu)
+    # ... but two different residues may legitimately share chain and number
+    # inside ONE conformation as read (a protein residue and an ion or ligand
+    # numbered alike, as in files where every molecule is numbered from 1):
+    # those positions are exempt from the guard, else the one that comes second
+    # is never copied into a conformation that lacks it
+    exempt_ok = False
+    if len(copies) == 1:
+        tparams = [a.arg for a in tu.args.args if a.arg != 'self']
+        for e, pol in facts_at(copies[0], tu):
+            for sub in ast.walk(e):
+                if isinstance(sub, ast.Compare) and len(sub.ops) == 1 \
+                        and isinstance(sub.ops[0], (ast.In, ast.NotIn)) \
+                        and isinstance(sub.comparators[0], ast.Name) \
+                        and sub.comparators[0].id in tparams[1:]:
+                    exempt_ok = True
+        tuc_ = mc.func('MolecularContainer.top_up_conformations')
+        passes = [c for c in calls_in(tuc_) if last_attr(c) == 'top_up_from_atoms'
+                  and (len(c.args) >= 2 or c.keywords)]
+        exempt_ok = exempt_ok and len(passes) == 1
+    ctx.ob('C08.R4', 'top-up:guard-exempts-positions-shared-within-a-conformation', exempt_ok,
+           'top_up_from_atoms takes the positions that carry more than one residue name within one '
+           'conformation as read, does not apply the residue-type guard to them, and '
+           'top_up_conformations passes them', cc, copies[0] if copies else tu)
     # the residue table the guard consults must learn the residues that are
     # copied in: otherwise a residue missing from this conformation is filled
     # from two other conformations with two different residue types
@@ -258,16 +293,62 @@ def run(ctx):
         lps = enclosing_loops(calls[0], tuc)
         every = bool(lps) and ('conformations.values()' in norm(lps[0].iter)
                                or 'conformation_names' in norm(lps[0].iter))
-    ctx.ob('C08.R4', 'top-up:reference-from-all-conformations', all_conf and every,
-           'the reference atoms come from all conformations and every conformation is topped up',
-           mc, tuc)
+    # the reference table is filled from the full atom list of every conformation
+    # (not from a filtered view: kept hydrogens are atoms to be handed on too)
+    fills = [c for c in calls_in(tuc) if last_attr(c) in ('setdefault', 'update', 'append', 'add')
+             and isinstance(c.func.value, ast.Name) and calls and calls[0].args
+             and c.func.value.id in {n.id for n in ast.walk(calls[0].args[0]) if isinstance(n, ast.Name)}]
+    full = bool(fills)
+    for c in fills:
+        lps_f = enclosing_loops(c, tuc)
+        its = [norm(l.iter) for l in lps_f]
+        full = full and len(lps_f) == 2 and its[1] == 'self.conformation_names' \
+            and its[0] == 'self.conformations[%s].atoms' % norm(lps_f[1].target)
+    ctx.ob('C08.R4', 'top-up:reference-from-all-conformations', all_conf and every and full,
+           'the reference atoms are all atoms of all conformations and every conformation is topped up '
+           '(%d filling calls)' % len(fills), mc, fills[0] if fills else tuc)
+    # a completed conformation lists its atoms in the order of the input, as the
+    # same structure read on its own would: copied atoms are appended behind the
+    # conformation's own, and ligand typing, hydrogen construction and the pair
+    # loops all go by list order (a ligand atom given as alt-loc A/B came first
+    # in 1B and changed the types of its neighbours: ASP 27 B 3.99 -> 6.88)
+    sorts = []
+    if len(calls) == 1:
+        owner = norm(calls[0].func.value)
+        loop_body = enclosing_loops(calls[0], tuc)
+        scope = loop_body[0] if loop_body else tuc
+        for c in calls_in(scope):
+            if last_attr(c) == 'sort' and norm(c.func.value) == owner + '.atoms' \
+                    and any(kw.arg == 'key' for kw in c.keywords):
+                keyf = [kw.value for kw in c.keywords if kw.arg == 'key'][0]
+                # key: position of the atom's donor key in the reference table
+                table_names = {n.id for n in ast.walk(keyf) if isinstance(n, ast.Name)}
+                from_ref = any(
+                    isinstance(st, ast.Assign) and isinstance(st.targets[0], ast.Name)
+                    and st.targets[0].id in table_names and 'enumerate(' in norm(st.value)
+                    for st in walk_no_nested(tuc))
+                if from_ref and c.lineno > calls[0].lineno:
+                    sorts.append(c)
+    ctx.ob('C08.R4', 'top-up:input-order-restored', len(sorts) == 1,
+           'after topping a conformation up its atom list is sorted by position in the reference '
+           'table (order of first appearance in the input); found %d such sort' % len(sorts),
+           mc, sorts[0] if sorts else (calls[0] if calls else tuc))
     # the reference table keeps one donor per key; top_up_from_atoms refuses a
     # donor of another residue type.  If the key does not contain the residue
     # type, a point mutant that owns the key shadows the donors of the right type
-    donor_keys = [n.key for n in walk_no_nested(tuc) if isinstance(n, ast.DictComp)]
-    donor_keys += [c.args[0] for c in calls_in(tuc, nested=False) if last_attr(c) == 'setdefault' and c.args]
+    # (the donor table is the one handed to top_up_from_atoms)
+    donor_tbl = None
+    if len(calls) == 1 and calls[0].args:
+        root = calls[0].args[0]
+        while isinstance(root, (ast.Call, ast.Attribute)):
+            root = root.func if isinstance(root, ast.Call) else root.value
+        donor_tbl = root.id if isinstance(root, ast.Name) else None
+    donor_keys = [st.value.key for st in walk_no_nested(tuc) if isinstance(st, ast.Assign)
+                  and isinstance(st.value, ast.DictComp) and norm(st.targets[0]) == donor_tbl]
+    donor_keys += [c.args[0] for c in calls_in(tuc, nested=False) if last_attr(c) == 'setdefault' and c.args
+                   and norm(c.func.value) == donor_tbl]
     donor_keys += [n.slice for n in walk_no_nested(tuc) if isinstance(n, ast.Subscript)
-                   and isinstance(n.ctx, ast.Store)]
+                   and isinstance(n.ctx, ast.Store) and norm(n.value) == donor_tbl]
     key_has_type = bool(donor_keys) and all(
         any(isinstance(x, ast.Attribute) and x.attr == 'res_name' for x in ast.walk(k)) for k in donor_keys)
     ctx.ob('C08.R4', 'top-up:donor-key-includes-residue-type', key_has_type,
